@@ -1,0 +1,34 @@
+//go:build verif
+
+// Package verifhook provides named schedule points for the verification
+// harness. With the build tag "verif" a test can install a function at a
+// point; without the tag Point is an empty function.
+package verifhook
+
+import "sync"
+
+var (
+	mu    sync.RWMutex
+	hooks = map[string]func(){}
+)
+
+// Point runs the function installed for name, if any.
+func Point(name string) {
+	mu.RLock()
+	f := hooks[name]
+	mu.RUnlock()
+	if f != nil {
+		f()
+	}
+}
+
+// Set installs (or, with a nil f, removes) the function for name.
+func Set(name string, f func()) {
+	mu.Lock()
+	if f == nil {
+		delete(hooks, name)
+	} else {
+		hooks[name] = f
+	}
+	mu.Unlock()
+}
